@@ -1052,7 +1052,8 @@ def run(ctx, res):
             {"layers": sorted(broken), "theorems": ["C27_parse_print", "C27_header_vars", "C27_solver_output_roundtrip",
                                                     "C27_update_file_blocks", "C27_chars_layer", "C27_text_lexes_to_tokens",
                                                     "C27_parse_print_chars", "C27_header_vars_chars",
-                                                    "C27_solver_output_roundtrip_chars"], "first_mismatch": repr(broken[k][0])},
+                                                    "C27_solver_output_roundtrip_chars", "C27_update_file_chars",
+                                                    "C27_update_file_blocks_chars"], "first_mismatch": repr(broken[k][0])},
             failing_input=False))
 
 
